@@ -160,6 +160,15 @@ func registerModels(e *Engine) {
 	delete(ic, "(*bytes.Buffer).String")
 
 	// sync.Mutex: lock state in the struct's first field; events for L4
+	mutexKey := func(p PtrVal) string { return itoa(p.obj) + ":" + pathKey(p.path) }
+	holds := func(hs []string, k string) bool {
+		for _, h := range hs {
+			if h == k {
+				return true
+			}
+		}
+		return false
+	}
 	ic["(*sync.Mutex).Lock"] = func(e *Engine, st *State, fr *Frame, in ssa.CallInstruction, a []Val) Val {
 		p := a[0].(PtrVal)
 		if p.obj == 0 {
@@ -168,11 +177,30 @@ func registerModels(e *Engine) {
 		sp := PtrVal{obj: p.obj, path: append(append([]int(nil), p.path...), 0)}
 		cur := navGet(st.hget(sp.obj), sp.path)
 		if t, ok := cur.(*Term); ok && t.IsConst() && t.c != 0 {
+			if par := st.par; par != nil && !holds(st.log.held, mutexKey(p)) {
+				// held by the other thread: this thread blocks, the other runs
+				if par.done[1-par.cur] || par.blocked[1-par.cur] {
+					abort("panic", "deadlock: both goroutines blocked")
+				}
+				par.blocked[par.cur] = true
+				e.parSwitch(st)
+				return pushedMarker
+			}
 			if st.log != nil && st.log.onLockBlocked != nil {
 				st.log.onLockBlocked(st, p)
 				return nil
 			}
 			abort("panic", "deadlock: Lock of a held mutex")
+		}
+		if par := st.par; par != nil {
+			if !par.skipAsk[par.cur] && e.parMayPreempt(st) {
+				par.budget--
+				par.skipAsk[par.cur] = true
+				e.parSwitch(st)
+				return pushedMarker
+			}
+			par.skipAsk[par.cur] = false
+			par.blocked[par.cur] = false
 		}
 		if st.log != nil {
 			st.log.lockEvent(st, p, true)
@@ -184,17 +212,27 @@ func registerModels(e *Engine) {
 	// TryLock: fails when the mutex is held; inside a modelled goroutine it may
 	// also fail because the other goroutine can hold the mutex at that moment
 	// (forked), which is how "skip the work when contended" code paths are seen.
+	// Under vfPar the other goroutine really runs, so TryLock is exact there.
 	ic["(*sync.Mutex).TryLock"] = func(e *Engine, st *State, fr *Frame, in ssa.CallInstruction, a []Val) Val {
 		p := a[0].(PtrVal)
 		if p.obj == 0 {
 			abort("panic", "nil mutex")
 		}
 		sp := PtrVal{obj: p.obj, path: append(append([]int(nil), p.path...), 0)}
+		if par := st.par; par != nil {
+			if !par.skipAsk[par.cur] && e.parMayPreempt(st) {
+				par.budget--
+				par.skipAsk[par.cur] = true
+				e.parSwitch(st)
+				return pushedMarker
+			}
+			par.skipAsk[par.cur] = false
+		}
 		cur := navGet(st.hget(sp.obj), sp.path)
 		if t, ok := cur.(*Term); ok && t.IsConst() && t.c != 0 {
 			return False
 		}
-		if st.thread != 0 {
+		if st.thread != 0 && st.par == nil {
 			site := fmt.Sprintf("trylock#%d", st.siteCtr)
 			c := e.choose(st, site, 2)
 			st.siteCtr++
@@ -211,6 +249,11 @@ func registerModels(e *Engine) {
 	ic["(*sync.Mutex).Unlock"] = func(e *Engine, st *State, fr *Frame, in ssa.CallInstruction, a []Val) Val {
 		p := a[0].(PtrVal)
 		sp := PtrVal{obj: p.obj, path: append(append([]int(nil), p.path...), 0)}
+		// the scheduling decision comes first: a forked state re-executes this call
+		if st.par != nil {
+			st.par.blocked[1-st.par.cur] = false // a waiting goroutine may retry
+		}
+		preempt := st.par != nil && e.parMayPreempt(st)
 		cur := navGet(st.hget(sp.obj), sp.path)
 		if t, ok := cur.(*Term); ok && t.IsConst() && t.c == 0 {
 			abort("panic", "sync: unlock of unlocked mutex")
@@ -218,6 +261,10 @@ func registerModels(e *Engine) {
 		st.heap.set(sp.obj, navSet(st.hget(sp.obj), sp.path, ConstBV(cur.(*Term).s.W, 0)))
 		if st.log != nil {
 			st.log.lockEvent(st, p, false)
+		}
+		if preempt {
+			st.par.budget--
+			e.parSwitch(st)
 		}
 		return nil
 	}
